@@ -54,6 +54,9 @@ func digestApkStream(r io.Reader, hash crypto.Hash) (*Digest, error) {
 		return nil, err
 	}
 	origDirLoc := inz.DirLoc
+	if sigLoc < 0 || sigLoc > origDirLoc {
+		return nil, errors.New("APK contents overlap the zip central directory")
+	}
 	inz.DirLoc = sigLoc
 	digests, err := hasher.Finish(inz, true)
 	if err != nil {
